@@ -254,6 +254,26 @@ BODYSETS = {
 
 
 TRANSLATED_BODIES = {
+    "src/enforcer.rs": ["load_policy", "load_filtered_policy", "save_policy", "clear_policy", "build_role_links", "set_role_manager",
+                        "set_model", "set_adapter", "enable_enforce", "enable_auto_save", "enable_auto_build_role_links",
+                        "enable_auto_notify_watcher", "add_function", "set_effector", "is_filtered", "private_enforce",
+                        "private_enforce_with_context", "register_g_functions", "new_raw", "new", "enforce", "enforce_mut",
+                        "enforce_with_context", "build_incremental_role_links", "on", "off", "emit", "register_function"],
+    "src/model/default_model.rs": ["from_str", "load_section", "load_assertion", "get_key_suffix", "add_def", "to_text", "add_policy",
+                                   "add_policies", "get_policy", "get_filtered_policy", "has_policy", "get_values_for_field_in_policy",
+                                   "remove_policy", "remove_policies", "remove_filtered_policy", "build_role_links",
+                                   "build_incremental_role_links", "clear_policy"],
+    "src/adapter/file_adapter.rs": ["load_policy_file", "load_filtered_policy_file", "save_policy_file", "load_policy", "load_filtered_policy",
+                                    "save_policy", "clear_policy", "add_policy", "add_policies", "remove_policy", "remove_policies",
+                                    "remove_filtered_policy", "is_filtered", "load_policy_line", "load_filtered_policy_line"],
+    "src/adapter/string_adapter.rs": ["load_policy", "load_filtered_policy", "save_policy", "clear_policy", "add_policy", "add_policies",
+                                      "remove_policy", "remove_policies", "remove_filtered_policy", "is_filtered", "load_policy_line"],
+    "src/config.rs": ["from_str", "parse_buffer", "add_config", "get", "get_str"],
+    "src/model/function_map.rs": ["key_match", "key_get", "key_match2", "key_get2", "key_match3", "key_get3", "key_match4", "key_match5",
+                                  "regex_match", "default", "add_function", "get_functions"],
+    "src/model/assertion.rs": ["build_role_links", "build_incremental_role_links", "default", "get_policy", "get_mut_policy"],
+    "src/internal_api.rs": ["add_policy_internal", "add_policies_internal", "remove_policy_internal", "remove_policies_internal",
+                            "remove_filtered_policy_internal"],
     "src/emitter.rs": ["notify_logger_and_watcher", "clear_cache"],     # rs2coq part 15
     "src/management_api.rs": ["add_policy", "add_policies", "remove_policy", "remove_policies", "add_named_policy", "add_named_policies",
                               "remove_named_policy", "remove_named_policies", "add_grouping_policy", "add_grouping_policies",
@@ -291,7 +311,14 @@ def pins_bodysets(out):
                       ("fcachedenforcer", "src/cached_enforcer.rs"),
                       # small files a property is anchored in that no other pin covers
                       ("frolemanager", "src/rbac/role_manager.rs"), ("ferror", "src/error.rs"), ("fadaptermod", "src/adapter/mod.rs"),
-                      ("fwatcher", "src/watcher.rs"), ("ffrontend", "src/frontend.rs")]:
+                      ("fwatcher", "src/watcher.rs"), ("ffrontend", "src/frontend.rs"),
+                      # files whose FUNCTIONS are translated one by one: everything the translators do not read (small
+                      # accessors, set_watcher, constructors, file-opening glue, struct and impl headers) stays pinned as text,
+                      # with the translated bodies cut out (TRANSLATED_BODIES)
+                      ("fenforcer", "src/enforcer.rs"), ("fdefaultmodel", "src/model/default_model.rs"),
+                      ("ffileadapter", "src/adapter/file_adapter.rs"), ("fstringadapter", "src/adapter/string_adapter.rs"),
+                      ("fconfig", "src/config.rs"), ("ffunctionmap", "src/model/function_map.rs"),
+                      ("fassertion", "src/model/assertion.rs"), ("finternalapi", "src/internal_api.rs")]:
         src = read(rel)
         # the test modules at the end of these files are not part of the pinned behaviour
         cut = src.find("#[cfg(test)]")
